@@ -201,7 +201,15 @@ func genSched(w *bufio.Writer, root string, seed uint64, n, ops int) {
 			case x < 13:
 				kind, hline = "gbk", "gbk "+dash(keys[r.intn(len(keys))])
 			case x < 14:
-				kind, hline = "gbt", fmt.Sprintf("gbt %d", 1_000_000+int64(r.intn(int(t-1_000_000)+2)))
+				ts := 1_000_000 + int64(r.intn(int(t-1_000_000)+2))
+				if r.chance(40) {
+					ts = t + 1 + int64(r.intn(2)) // past every message: the walk ends in "not found" unless somebody publishes
+				}
+				if r.chance(40) && next > 0 {
+					// the tail goes: the head the lookup meets first is empty (and may not stay so)
+					exec(fmt.Sprintf("del %d", next-1))
+				}
+				kind, hline = "gbt", fmt.Sprintf("gbt %d", ts)
 			default:
 				kind, hline = "gc", "gc"
 				// make sure some closed segment is loaded
